@@ -62,7 +62,7 @@ type c13PipeCase struct {
 func genC13Pipe(t *rapid.T) *c13PipeCase {
 	c := &c13PipeCase{Kind: rapid.SampledFrom([]string{"encode", "encode", "encode", "decode-vp8gen"}).Draw(t, "kind")}
 	if c.Kind == "encode" {
-		c.Img = gen.DrawImg(t, gen.ImgCfg{MaxSide: 56, BigChance: 3, BigSide: 130, ThinPermille: 30, Kinds: []string{"nrgba", "nrgba", "rgba", "generic", "gray", "ycbcr420"}})
+		c.Img = gen.DrawImg(t, gen.ImgCfg{MaxSide: 56, BigChance: 3, BigSide: 130, ThinPermille: 30})
 		if rapid.IntRange(0, 2).Draw(t, "lossless") == 0 {
 			c.Opts = gen.DrawLosslessOpts(t)
 		} else {
@@ -133,7 +133,7 @@ var c13Kernels = []string{"SSE4x4", "SSE16x16", "SSE4x4Direct", "SSE16x16Direct"
 	"ITransform", "ITransformDirect", "Transform", "TransformUV", "TransformWHT", "TransformDC", "TransformAC3", "TransformDCUV",
 	"PredLuma16", "PredChroma8", "PredLuma4", "PredLuma16Direct", "PredChroma8Direct", "PredLuma4Direct",
 	"AddGreen", "SubtractGreen", "SimpleVFilter16", "SimpleHFilter16", "VFilter16", "HFilter16", "VFilter8", "HFilter8", "VFilter16i", "HFilter16i", "VFilter8i", "HFilter8i",
-	"UpsampleLinePairNRGBA", "DequantCoeffs", "YUVToRGB", "TransformColorInverse"}
+	"UpsampleLinePairNRGBA", "DequantCoeffs", "YUVToRGB", "TransformColorInverse", "QuantizeCoeffs"}
 
 func genC13Kern(t *rapid.T) *c13KernCase {
 	return &c13KernCase{
@@ -413,6 +413,71 @@ func runKernel(c *c13KernCase) []byte {
 			dsp.UpsampleLinePairNRGBA(ty, nil, tu, tv, bu, bv, td, nil, at, nil, w)
 		}
 		return append(td, bd...)
+	case "QuantizeCoeffs":
+		// the encoder's real matrices (libwebp's ExpandMatrix: QFIX 17, bias tables, Y1 sharpening) for
+		// EVERY quantiser index of the drawn plane type; half of the cases put the inputs on the
+		// rounding boundaries (v+sharpen)*iq+bias = L<<17 (+-1), where an off-by-one in a threshold shows
+		typ := c.Mode % 3
+		first := (c.Mode / 3) % 2
+		var all []byte
+		for qi := 0; qi < 128; qi++ {
+			dcq, acq := int(lossy.KDcTable[qi]), int(lossy.KAcTable[qi])
+			switch typ {
+			case 1:
+				dcq, acq = dcq*2, int(lossy.KAcTable2[qi])
+			case 2:
+				if qi > 117 {
+					dcq = int(lossy.KDcTable[117])
+				}
+			}
+			bias := [3][2]int{{96, 110}, {96, 108}, {110, 115}}[typ]
+			sq := &lossy.SegmentQuant{DCQuant: dcq, DCIQuant: (1 << 17) / dcq, DCBias: bias[0] << 9, Quant: acq, IQuant: (1 << 17) / acq, Bias: bias[1] << 9}
+			sq.DCZthresh = ((1 << 17) - 1 - sq.DCBias) / sq.DCIQuant
+			sq.Zthresh = ((1 << 17) - 1 - sq.Bias) / sq.IQuant
+			if typ == 0 {
+				sharp := [16]int{0, 30, 60, 90, 30, 60, 90, 90, 60, 90, 90, 90, 90, 90, 90, 90}
+				for i := range sq.Sharpen {
+					q := acq
+					if i == 0 {
+						q = dcq
+					}
+					sq.Sharpen[i] = int16((sharp[i] * q) >> 11)
+				}
+			}
+			in := kernCoeffs(r, c.Class, 16, false)
+			if c.Seed&1 == 0 {
+				for i := range in {
+					iq, b := sq.IQuant, sq.Bias
+					if i == 0 {
+						iq, b = sq.DCIQuant, sq.DCBias
+					}
+					level := r.Intn(4)
+					if r.Intn(8) == 0 {
+						level = 2040 + r.Intn(12) // around the 2047 clamp
+					}
+					v := ((level<<17)-b+iq-1)/iq - int(sq.Sharpen[i]) + r.Intn(3) - 1
+					if v < 0 {
+						v = 0
+					}
+					lim := 2040 // what the forward DCT of 8-bit residuals can produce
+					if typ == 1 {
+						lim = 16320 // forward WHT of sixteen such DC values
+					}
+					if v > lim {
+						v = lim
+					}
+					if r.Intn(2) == 0 {
+						v = -v
+					}
+					in[i] = int16(v)
+				}
+			}
+			out := make([]int16, 16)
+			nz := lossy.QuantizeCoeffs(in, out, sq, first)
+			all = append(all, i16bytes(out)...)
+			all = append(all, byte(nz))
+		}
+		return all
 	case "DequantCoeffs":
 		in := kernCoeffs(r, c.Class, 16, false)
 		out := make([]int16, 16)
